@@ -282,7 +282,7 @@ def jobs(tier, seed):
 def run_job(job):
     if job["part"] == "seq":
         from vf.runner import run_seq_job
-        return run_seq_job(job, seq_ops(job), run_case)
+        return run_seq_job(job, seq_ops(job), run_case, depth=3 if job["tier"] == "quick" else 4)
     acc = Acc(job)
     seen = set()
     if job["part"] == "concur":
